@@ -46,8 +46,11 @@ def array_support(func):
 
             if isinstance(args[0], np.ndarray):
                 _vals = np.array(vals)
-                if _vals.dtype.kind == 'f' and len(vals) > 0 and isinstance(vals[0], int):
-                    _vals = np.array(vals, dtype=object)    # python integers of 64 bits or more must not become float
+                if _vals.dtype.kind == 'f' and len(vals) > 0:
+                    # integers of 64 bits or more (also rows of them, merged from int64 / uint64 / object rows) must not become float
+                    _obj = np.array(vals, dtype=object)
+                    if all(isinstance(v, (int, np.integer)) for v in _obj.flat):
+                        _vals = np.array([int(v) for v in _obj.flat], dtype=object).reshape(_obj.shape)
                 vals = _vals
             return vals
         else:
